@@ -1,6 +1,8 @@
 import OdcGeo.Model.C08
 import OdcGeo.Model.C08Args
 import OdcGeo.Model.C02
+import OdcGeo.Model.C20NonFinite
+import OdcGeo.Drv.C20
 namespace OdcGeo.C08.Drv
 open OdcGeo OdcGeo.IO OdcGeo.C08
 
@@ -134,6 +136,14 @@ def run (args : List String) : Option String :=
       let al := fmtRes (fun (p : Rat × Rat) => s!"{fmtRat p.1} {fmtRat p.2}") (C02.alignment h)
       s!"{al} | {fmtRat B.left} {fmtRat B.bottom} {fmtRat B.right} {fmtRat B.top}")
       (fromBbox ⟨l, b, r, t⟩ tight shape res anchor tol))
+  | ["bboxresx", l, b, r, t, rx, ry, snap, tol] => do
+    -- resolution branch with arbitrary floats (nan / inf) as region, resolution and tol; `snap` = `N` or `<sx>;<sy>`
+    let l ← C20.Drv.parseXF? l; let b ← C20.Drv.parseXF? b; let r ← C20.Drv.parseXF? r; let t ← C20.Drv.parseXF? t
+    let rx ← C20.Drv.parseXF? rx; let ry ← C20.Drv.parseXF? ry
+    let snap ← parseOpt? parsePt? snap; let tol ← C20.Drv.parseXF? tol
+    pure (match C20.NF.fromBboxResX l b r t rx ry snap tol with
+      | .ok (ny, nx, ox, oy) => s!"{ny} {nx} {C20.Drv.fmtXF ox} {C20.Drv.fmtXF oy}"
+      | .error e => e.toStr)
   | ["bboxutm", l, b, r, t, A, tight, shape, res, anchor, tol] => do
     -- the utm shortcut with an affine stand-in `A` for the projection
     let l ← parseRat? l; let b ← parseRat? b; let r ← parseRat? r; let t ← parseRat? t
